@@ -105,6 +105,9 @@ func VH_C14_StackClosures(p []int) {
 	if cfg, _ := s.config(); cfg != nil {
 		cfg.opt = opt
 	}
+	if nondetChoice(2) == 1 {
+		s.SetMutex() // installing, consulting and removing closures hands every lock back
+	}
 	other := And().Push("zzz")
 	same := func() Stack {
 		switch p[0] {
@@ -222,6 +225,7 @@ func VH_C14_StackClosures(p []int) {
 		s.SetPresentationPolicy(nil)
 		verifAssert(s.String() == builtinString, "both-removed")
 	}
+	vhAssertUnlocked(s, "after")
 	verifReach("end")
 }
 
